@@ -82,6 +82,12 @@ def main() -> int:
         seed = 1
     repo = _setup_repo_path()
     t0 = time.time()
+    import warnings
+
+    import numpy as np
+
+    warnings.simplefilter("ignore")
+    np.seterr(all="ignore")
 
     try:
         mod = importlib.import_module(f"vf.props.{prop.lower()}")
@@ -99,6 +105,16 @@ def main() -> int:
         try:
             mod.replay(rp["spec"])
         except Violation as v:
+            print(f"replayed: clause={v.clause} {v.detail}")
+            print(f"VIOLATION property={prop} replay={a.replay}")
+            return 1
+        except Exception as e:
+            from vf.core import Discard, exception_to_violation
+
+            if isinstance(e, Discard):
+                print(f"replay {a.replay}: case discarded by the harness ({e})")
+                return 0
+            v = exception_to_violation(e)
             print(f"replayed: clause={v.clause} {v.detail}")
             print(f"VIOLATION property={prop} replay={a.replay}")
             return 1
@@ -127,10 +143,18 @@ def main() -> int:
                     known_lines.append(f"KNOWN-FINDING: property={prop} {kn[0].get('what')}")
                 else:
                     violations.append({"clause": v.clause, "detail": v.detail, "spec": rp["spec"], "test": "replay:" + fn})
-            except Exception:
-                traceback.print_exc()
-                print(f"HARNESS-ERROR: replay {fn} crashed", file=sys.stderr)
-                return 2
+            except Exception as e:
+                from vf.core import Discard, HarnessError, exception_to_violation
+
+                if isinstance(e, Discard):
+                    continue
+                try:
+                    v = exception_to_violation(e)
+                except HarnessError:
+                    traceback.print_exc()
+                    print(f"HARNESS-ERROR: replay {fn} crashed", file=sys.stderr)
+                    return 2
+                violations.append({"clause": v.clause, "detail": v.detail, "spec": rp["spec"], "test": "replay:" + fn})
 
     # ---------------- generated search, sharded ----------------
     nshards = a.shards or int(os.environ.get("VERIF_SHARDS", "16"))
@@ -189,7 +213,7 @@ def main() -> int:
     for line in sorted(set(known_lines)):
         print(line)
     seen = set()
-    out_dir = os.path.join(HERE, "replays", "_new")
+    out_dir = os.environ.get("VERIF_REPLAY_OUT") or os.path.join(HERE, "replays", "_new")
     n_viol = 0
     for f in violations:
         if f["clause"] in seen:
